@@ -6,7 +6,7 @@ SPEC = {
                  "note": 'Trusted: Coq kernel + vm_compute; harness; validators from a fixed vocabulary; leaf validate abstract. Open findings F36 (explicit null for a required field of a disabled sub-configuration is rejected at load) and F42 (required IncludeField never checked) -- include fields are not in this model. No axioms.',
                  "design_ref": "DESIGN.md section 6 C11"},
     "streams": ['co11'],
-    "witnesses": ['F41'],
+    "witnesses": ["F41", "F50"],
     "rule": 'as C06, with load/validate-heavy histories, required fields, feature flags and schema validators at every depth',
     "trusted_base": [KERNEL, "Print Assumptions: closed under the global context (no axioms)", TIE, HARNESS,
                       "modelled, not verified: leaf fields are opaque in Config.v (Section variables lvalidate / lto_python / lto_basic / ldefault); "
